@@ -12,7 +12,7 @@ TECHNIQUE = "runtime monitoring: ThreadSanitizer build of the real Stats server 
 RULE = ("one process per batch under ThreadSanitizer, a fresh Stats instance per history: 3-4 threads x 3-5 operations from {increment, set, "
         "reset, getAll, socket `g`/`r` via StatsClient, raw socket clients} on 2 keys, every call recorded at the client boundary "
         "{thread, op, args, call seq, result, return seq} and searched for a linearization against a sequential map; long conservation runs "
-        "(N threads x M increments => exact sums, reset zeroes but keeps every key); raw clients: all 256 first bytes x {\\n, \\0, EOF, 31 "
+        "(N threads x M increments => exact sums, reset zeroes but keeps every key); hundreds of tiny histories on a fresh service in which a counter is created under contention (exact sums) and of reset against readers and updaters of two keys; raw clients: all 256 first bytes x {\\n, \\0, EOF, 31 "
         "more bytes, 40 bytes}, random strings, half-close, RST, close before reading the reply, stall past the 2 s timeout: each "
         "connection (incl. slow but live readers of a several-hundred-KiB `g` reply over 12000-40000 counters) gets <=1 reply which is JSON with error in {0,1} matching the mode byte and a body object, then EOF; the server "
         "survives (SIGPIPE has its default disposition, as in oomd) and keeps serving; ~Stats completes with clients dangling in every "
@@ -45,6 +45,29 @@ def gen_history(rng):
                 ops.append({"op": "creset"})
         ths.append(ops)
     return {"init": {"a": rng.choice([0, 3])}, "threads": ths}
+
+
+def gen_creation(rng):
+    """a counter comes into being under contention: a fresh service, 3-4 threads whose first operation is an increment of the
+    same not-yet-existing key; no set / reset, so the final value of every key is exactly the sum of its increments"""
+    nth = rng.choice([2, 3, 4, 4])
+    ths = []
+    for t in range(nth):
+        ops = [{"op": "inc", "k": "a", "v": rng.choice([1, 2, 5])}]
+        for _ in range(rng.choice([0, 0, 1, 2])):
+            ops.append(rng.choice([{"op": "inc", "k": rng.choice(KEYS), "v": rng.choice([1, 3])}, {"op": "get"}]))
+        ths.append(ops)
+    return {"init": {}, "threads": ths, "exact_sums": True}
+
+
+def gen_reset_race(rng):
+    """reset against concurrent updates and readers of two keys: a reader must never see one key reset and the other not"""
+    ths = [[{"op": rng.choice(["reset", "reset", "creset"])}] + ([{"op": "get"}] if rng.random() < 0.5 else []),
+           [{"op": rng.choice(["get", "get", "cget"])} for _ in range(rng.randint(2, 4))],
+           [{"op": "inc", "k": rng.choice(KEYS), "v": 1} for _ in range(rng.randint(1, 3))]]
+    if rng.random() < 0.4:
+        ths.append([{"op": "get"}, {"op": "set", "k": "b", "v": 10}, {"op": "get"}])
+    return {"init": {"a": rng.choice([3, 7]), "b": rng.choice([5, 9])}, "threads": ths}
 
 
 def gen_conservation(rng):
@@ -104,10 +127,14 @@ def gen_stall(rng):
 def cases(seed, tier):
     quick = tier != "thorough"
     rng = random.Random(seed * 1000003 + 19)
-    nh = 30 if quick else 1000
+    nh = 240 if quick else 3000
     scns = []
-    per = 10 if quick else 25
-    hs = [gen_history(rng) for _ in range(nh)]
+    per = 40 if quick else 100
+    hs = [gen_history(rng) if i % 3 else gen_reset_race(rng) for i in range(nh)]
+    nc = 400 if quick else 6000
+    cs = [gen_creation(rng) for _ in range(nc)]
+    for i in range(0, nc, 100):
+        scns.append({"mode": "histories", "seed": rng.randint(1, 10**6), "yield_us": rng.choice([0, 0, 10]), "mutex_yield_ppm": rng.choice([0, 20000, 200000, 500000]), "histories": cs[i:i + 100], "kind": "creation"})
     for i in range(0, nh, per):
         scns.append({"mode": "histories", "seed": rng.randint(1, 10**6), "yield_us": rng.choice([0, 10, 50]), "mutex_yield_ppm": rng.choice([0, 20000, 200000]), "histories": hs[i:i + per], "kind": "lin"})
     for _ in range(2 if quick else 10):
@@ -207,6 +234,17 @@ def judge_history(v, scn, h, hout):
         for b in lin_ops:
             if a is not b and a["call"] < b["call"] < a["ret"]:
                 overlap += 1
+    if h.get("exact_sums"):
+        want = {}
+        for th in h["threads"]:
+            for o in th:
+                if o["op"] == "inc":
+                    want[o["k"]] = want.get(o["k"], 0) + o["v"]
+        fin = {k: val for k, val in hout["final"].items() if k in KEYS}
+        v.count("creation_histories")
+        if fin != want:
+            v.bad("lost-update", "key-creation", "fresh service, threads %s: final counters %s, sum of the increments %s" % (
+                [[(o["op"], o.get("k"), o.get("v")) for o in th] for th in h["threads"]], fin, want))
     if h.get("conservation"):
         nth, m = h["conservation"]
         fin = hout["final"]
